@@ -58,7 +58,8 @@ SeededVerdict(e) ==
       n == e.n
   IN IF e.exc # "" THEN R("Applicable")
      ELSE IF ~(Len(e.A1) = n /\ Simple(e.A1)) THEN R("Simple")
-     ELSE IF e.gen = "ErdosRenyi_links" /\ NLinks(e.A1) # e.m THEN R("LinkCount")
+     ELSE IF e.gen \in {"ErdosRenyi_links", "ErdosRenyi_p0", "ErdosRenyi_p1", "Model_ErdosRenyi", "GeoModel_ErdosRenyi"}
+             /\ NLinks(e.A1) # e.m THEN R("LinkCount")
      ELSE IF e.gen = "BarabasiAlbert" /\ NLinks(e.A1) # e.m * (n - e.m) THEN R("LinkCount")
      ELSE IF e.gen = "BarabasiAlbert_igraph" /\ NLinks(e.A1) > e.m * n THEN R("LinkCount")
      ELSE IF e.gen = "Configuration" /\ ~(\A k \in 1..n : DegreeSeq(e.A1)[k] <= e.deg[k]) THEN R("DegreesBounded")
